@@ -222,7 +222,7 @@ def r193(prog, chk):
     kv = A.target_names(kern.target)
     ok1, why1 = _both_directions(prog, f, kern, lambda e: isinstance(e, ast.Name) and e.id == kv[0], old, new)
     ok2, why2 = _both_directions(prog, f, kern, lambda e: isinstance(e, ast.Name) and e.id == kv[1], old, new)
-    after = f.node.body[f.node.body.index(kern) + 1: f.node.body.index(kern) + 3]
+    after = [s_ for s_ in f.node.body[f.node.body.index(kern) + 1:] if not isinstance(s_, ast.Pass)][:2]
     okr = [T(s.value.func) for s in after if isinstance(s, ast.Expr) and isinstance(s.value, ast.Call)] == [f"{font}.kerning.clear", f"{font}.kerning.update"]
     st = [s for s in ast.walk(kern) if isinstance(s, ast.Assign) and isinstance(s.targets[0], ast.Subscript)]
     okv = len(st) == 1 and T(st[0].targets[0].slice) == f"({kv[0]}, {kv[1]})"
